@@ -200,6 +200,21 @@ func c05Gen(tier string, rng *rand.Rand) []mCase {
 		for _, bm := range skipBombs() {
 			cs = append(cs, mkS(b, "skip-bomb", bm.note, bm.bs))
 		}
+		// nesting up to the limit, then two-element lists whose first element is again a list: a skipper that ignores
+		// element errors must still be stopped by the limit at every further level (no drift of the depth counter)
+		for _, k := range []int{100, 2000, 2600000} {
+			for _, lim := range []int{511, 512} {
+				if k > 100000 && (lim != 512 || b.e.name != "requestf.RequestPacket") {
+					continue // the packet-limit sized instance once
+				}
+				bs := append(bytes.Repeat([]byte{0x09, 0x00, 0x02}, lim), bytes.Repeat([]byte{0x09, 0x09, 0x00, 0x02}, k)...)
+				c := mkS(b, "nest-drift", fmt.Sprintf("%d x 09 00 02 then %d x 09 09 00 02", lim, k), bs)
+				if k > 150 {
+					c.g.NoCoq = true
+				}
+				cs = append(cs, c)
+			}
+		}
 		for i := 0; i < nrand; i++ {
 			bs := make([]byte, rng.Intn(40))
 			rng.Read(bs)
